@@ -11,6 +11,7 @@ import (
 	"os/exec"
 	"path/filepath"
 	"strings"
+	"sync"
 	"syscall"
 	"time"
 
@@ -30,6 +31,8 @@ type Spec struct {
 	Strs     map[string]string // command-line flags
 	Dir      string            // private scratch directory (HOME, XDG_CONFIG_HOME, tmp, cwd)
 	Settings string            // initial contents of settings.json ("" = none)
+	// Concurrency > 1: web requests are issued by that many client goroutines.
+	Concurrency int
 }
 
 // Segment is what one interactive line / one request produced.
@@ -54,11 +57,13 @@ type Result struct {
 	ProfileUnchanged bool // the loaded profile object never changed between commands
 	ProfileChangedAt string
 	SettingsAfter    string
+	Overlaps         int // web, concurrent: number of request pairs whose executions really overlapped
 }
 
 // Run executes the spec in a fresh child process of the runner binary.
 func Run(spec Spec, timeout time.Duration) (*Result, error) {
 	b, _ := json.Marshal(spec)
+	os.MkdirAll(spec.Dir, 0o755)
 	cmd := exec.Command(harness.Self(), "child", "session")
 	cmd.Stdin = bytes.NewReader(b)
 	var out, errb bytes.Buffer
@@ -201,6 +206,11 @@ func Child(args []string) int {
 		}
 		ui.OnRead = func(i int) {
 			res.Reads++
+			if i == 0 {
+				// pprof owns the fetched profile while loading it (drop_frames, mapping clean-up);
+				// the pristine state is the one at the first prompt
+				fp0 = mon.Fingerprint(p)
+			}
 			closeSeg(i - 1)
 			f, err := os.Create(filepath.Join(segDir, fmt.Sprintf("out%04d", i)))
 			if err == nil {
@@ -234,6 +244,47 @@ func Child(args []string) int {
 			res.Err = err.Error()
 			emit()
 			return 0
+		}
+		fp0 = mon.Fingerprint(p) // pristine state = after loading
+		if spec.Concurrency > 1 {
+			res.Segments = make([]Segment, len(spec.Requests))
+			type stamp struct{ call, ret int64 }
+			stamps := make([]stamp, len(spec.Requests))
+			var clock int64
+			var mu sync.Mutex
+			tick := func() int64 { mu.Lock(); clock++; v := clock; mu.Unlock(); return v }
+			jobs := make(chan int, len(spec.Requests))
+			for i := range spec.Requests {
+				jobs <- i
+			}
+			close(jobs)
+			var wg sync.WaitGroup
+			for k := 0; k < spec.Concurrency; k++ {
+				wg.Add(1)
+				go func() {
+					defer wg.Done()
+					for i := range jobs {
+						stamps[i].call = tick()
+						code, body, pn := web.Get(spec.Requests[i])
+						stamps[i].ret = tick()
+						res.Segments[i] = Segment{Input: spec.Requests[i], Code: code, Body: body, Panic: pn}
+					}
+				}()
+			}
+			wg.Wait()
+			for i := range stamps {
+				for j := i + 1; j < len(stamps); j++ {
+					if stamps[i].call < stamps[j].ret && stamps[j].call < stamps[i].ret {
+						res.Overlaps++
+					}
+				}
+			}
+			if fp := mon.Fingerprint(p); fp != fp0 {
+				res.ProfileUnchanged = false
+				res.ProfileChangedAt = "during the concurrent requests"
+			}
+			web.Close()
+			break
 		}
 		for _, u := range spec.Requests {
 			code, body, pn := web.Get(u)
